@@ -124,7 +124,16 @@ impl Database {
     pub fn get_version(source: &mut dyn std::io::Read) -> Result<DatabaseVersion, DatabaseIntegrityError> {
         let mut data = Vec::new();
         data.resize(DatabaseVersion::get_version_header_size(), 0);
-        source.read(&mut data)?;
+        // a single read() may legally deliver fewer bytes than requested
+        let mut filled = 0;
+        while filled < data.len() {
+            match source.read(&mut data[filled..]) {
+                Ok(0) => break,
+                Ok(n) => filled += n,
+                Err(ref e) if e.kind() == std::io::ErrorKind::Interrupted => continue,
+                Err(e) => return Err(e.into()),
+            }
+        }
         DatabaseVersion::parse(data.as_ref())
     }
 
